@@ -106,7 +106,16 @@ func BuildOverlay(repoDir, verifDir string, withTests bool, dirs ...string) (map
 			if NoBoundaryRewrite {
 				continue
 			}
-			// boundary files: the current source with its syscall selectors rewritten to the stubs
+			// the package's sources with every redirected call rewritten to its stub (decided by go/types, so
+			// independent of variable names, functions and files); the textual rules are the fall-back
+			if typed, err := RewriteTyped(repoDir, verifDir, d); err == nil {
+				for name, content := range typed {
+					ov[name] = content
+				}
+				continue
+			} else {
+				fmt.Fprintf(os.Stderr, "typed boundary rewrite unavailable for %s (%v): textual rules used\n", d, err)
+			}
 			for _, name := range boundaryFiles[d] {
 				src, err := os.ReadFile(filepath.Join(rd, name))
 				if err != nil {
@@ -218,10 +227,31 @@ var boundaryFiles = map[string][]string{
 	"cmd/seccomp-profiler/disasm": {"disasm.go"},
 }
 
+// nativeDeps: packages below the harness package whose boundary must be
+// stubbed in the native replay too (the engine interprets them with the same
+// stubs): cmd/sandbox calls the real LoadFilter/Supported, which must meet the
+// kernel contract stub and never the kernel of the machine running the check.
+var nativeDeps = map[string][]string{
+	"cmd/sandbox": {"root"},
+}
+
 type rewrite struct {
 	scope    string // "" = whole file, else the name of the function whose body is rewritten
 	from, to string
 }
+
+// ambientRewrites apply to the boundary files of every directory.
+var ambientRewrites = func() []rewrite {
+	var rs []rewrite
+	for _, pk := range []string{"syscall", "os", "unix"} {
+		for _, f := range []string{"Getuid", "Geteuid", "Getgid", "Getegid", "Getpid", "Getppid", "Gettid"} {
+			rs = append(rs, rewrite{"", pk + "." + f + "(", "vstub" + f + "("})
+		}
+	}
+	rs = append(rs, rewrite{"", "os.Getenv(", "vstubGetenv("}, rewrite{"", "os.LookupEnv(", "vstubLookupEnv("},
+		rewrite{"", "syscall.Getenv(", "vstubLookupEnv("}, rewrite{"", "unix.Getenv(", "vstubLookupEnv("})
+	return rs
+}()
 
 var boundaryRewrites = map[string][]rewrite{
 	"root": {
@@ -253,6 +283,7 @@ var boundaryRewrites = map[string][]rewrite{
 		{"", "s.Scan()", "vstubScan(s)"},
 		{"", "s.Text()", "vstubText(s)"},
 		{"", "s.Err()", "vstubScanErr(s)"},
+		{"", "s.Buffer(", "vstubBuffer(s, "},
 		{"", "findSyscallNum(instructions, s", "vstubFindSyscallNum(instructions, s"},
 	},
 	"cmd/seccomp-profiler": {
@@ -270,6 +301,11 @@ var boundaryRewrites = map[string][]rewrite{
 		{"main", "= openOutput(", "= vstubOpenOutput("},
 		{"main", "= writeGoTemplate(", "= vstubWriteGoTemplate("},
 		{"", "yaml.Marshal(", "vstubYAMLMarshal("},
+		{"hashBinary", "os.Open(", "vstubOpen("},
+		{"hashBinary", "f.Close()", "vstubFileClose(f)"},
+		{"hashBinary", "io.Copy(", "vstubCopy("},
+		{"hashBinary", "sha256.New()", "vstubSha256New()"},
+		{"hashBinary", "bufio.NewReader(", "vstubNewReader("},
 		{"doObjdump", "= cachedDumpFile(", "= vstubCachedDumpFile("},
 		{"doObjdump", "os.Open(", "vstubOpen("},
 		{"doObjdump", "f.Read(", "vstubFileRead(f, "},
@@ -303,7 +339,7 @@ func funcRegion(src, name string) (int, int) {
 
 // RewriteBoundary is the mechanical source rewrite used for native replays.
 func RewriteBoundary(dir, src string) string {
-	for _, r := range boundaryRewrites[dir] {
+	for _, r := range append(append([]rewrite{}, boundaryRewrites[dir]...), ambientRewrites...) {
 		if r.scope == "" {
 			src = strings.ReplaceAll(src, r.from, r.to)
 			continue
@@ -314,7 +350,11 @@ func RewriteBoundary(dir, src string) string {
 		}
 		src = src[:a] + strings.ReplaceAll(src[a:b], r.from, r.to) + src[b:]
 	}
-	// an import whose last use was rewritten away becomes a blank import
+	return fixUnusedImports(src)
+}
+
+// fixUnusedImports: an import whose last use was rewritten away becomes a blank import.
+func fixUnusedImports(src string) string {
 	lines := strings.Split(src, "\n")
 	inImports := false
 	for i, l := range lines {
@@ -803,7 +843,7 @@ func (r *Replayer) binFor(pkg string, race bool) (string, error) {
 		return "", fmt.Errorf("no harness directory for %s", pkg)
 	}
 	t0 := time.Now()
-	ov, err := BuildOverlay(r.repoDir, r.verifDir, true, d)
+	ov, err := BuildOverlay(r.repoDir, r.verifDir, true, append([]string{d}, nativeDeps[d]...)...)
 	if err != nil {
 		return "", err
 	}
